@@ -4,6 +4,7 @@ import (
 	"fmt"
 	"reflect"
 	"strings"
+	"unsafe"
 
 	"verifsim/engine"
 	"verifsim/world"
@@ -57,6 +58,7 @@ func (t *taskState) unmarshalOp(i int, po *prepOp) {
 	var in []byte
 	var full []byte
 	var tailCopy []byte
+	var decoded reflect.Value
 	if po.op.Buf > 0 {
 		full = t.ringBuf(po.op.Buf, len(po.data))
 		copy(full, po.data)
@@ -77,6 +79,7 @@ func (t *taskState) unmarshalOp(i int, po *prepOp) {
 		err := p.Unmarshal(in, out.Interface())
 		t.noteValue(out.Elem(), err)
 		t.checkDecoded(i, po, out, err)
+		decoded = out
 		var twin reflect.Value
 		if t.x.prop == "C19" && po.ti.Twin != "" {
 			// interning must be transparent: the same bytes, from the same buffer,
@@ -99,6 +102,23 @@ func (t *taskState) unmarshalOp(i int, po *prepOp) {
 				lv.twin, lv.twinExp = twin, world.Clone(twin.Elem())
 			}
 			t.live = append(t.live, lv)
+		}
+	}
+	if !decoded.IsValid() && po.op.Target > 0 {
+		decoded = t.targets[po.op.Target] // invalid if the decode failed and the target was dropped
+	}
+	if (t.x.prop == "C11" || t.x.prop == "C19") && decoded.IsValid() && decoded.Type().Elem() == po.ti.T {
+		// the direct form of "shares no memory with the input": nothing the decoded
+		// value owns - including the capacity of an empty slice - lies in the buffer
+		buf := in[:cap(in)]
+		if full != nil {
+			buf = full[:cap(full)]
+		}
+		if len(buf) > 0 {
+			lo := uintptr(unsafe.Pointer(&buf[0]))
+			if hit, path := world.Overlaps(decoded.Elem(), lo, lo+uintptr(len(buf))); hit {
+				t.fail(i, po, "alias", "the decoded value shares memory with the input buffer at "+path)
+			}
 		}
 	}
 	if string(in) != string(po.data) {
